@@ -561,21 +561,25 @@ Definition captures_of (t : list call) : list capture :=
 
 Definition is_nil {A} (l : list A) : bool := match l with [] => true | _ => false end.
 
-(* exposure.run_pipeline, result assembly: with debug on, `detector.intermediate` is read (by the
-   progress bar of a multi-step run, and when the result is assembled); it only exists if a model was
-   captured on this detector, now or by an earlier debug run; else RuntimeError (the code as it is:
-   see C01_debug_runs_refuted and the known finding C01-debug-empty-run) *)
+(* exposure.run_pipeline, result assembly.  `detector._intermediate` is created by the first capture
+   (ModelGroup.run) and stays None when no model was captured; with debug on the result then holds an
+   empty `intermediate` tree (repaired defect C01-debug-empty-run: the tree used to be read
+   unconditionally, which raised RuntimeError when no model at all executed). *)
+Definition intermediate_of (caps : list capture) : option (list capture) :=
+  if is_nil caps then None else Some caps.
+
 Definition exposure_result (debug : bool) (order : list group) (p : pipeline) (n : nat)
   : res (list call * list capture) :=
   let r := run_readouts debug order p n in
-  if debug && is_nil (snd r) then Raise "RuntimeError" else Ok r.
+  Ok (fst r, if debug then match intermediate_of (snd r) with Some c => c | None => [] end else []).
 
 (* Judge ONE run of configuration p against a run function.
-     model: order regenerated from the source, through run_readouts, faithful = true: the debug/empty
-            failure of the code is expected, and the debug tree is exactly what the insertions give;
-     specification: tr_readouts spec_order, faithful = false: every valid pipeline must run; of the
-            debug tree it demands exactly the executed models when the detector's tree was empty
-            before, and otherwise that every executed model has its node.
+     model: order regenerated from the source, through run_readouts, faithful = true: the debug tree
+            is exactly what the insertions give;
+     specification: tr_readouts spec_order, faithful = false: of the debug tree it demands exactly the
+            executed models when the detector's tree was empty before, and otherwise that every
+            executed model has its node.
+   Every run of a valid configuration completes (a `Failed` outcome never agrees).
    `prior` is the debug tree the detector carries from earlier runs. *)
 Definition agrees_run (faithful : bool)
            (run : bool -> pipeline -> nat -> list call * list capture)
@@ -584,11 +588,9 @@ Definition agrees_run (faithful : bool)
   | Exposure debug =>
       let r := run debug p steps in
       let tree := ins_captures prior (snd r) in
-      let fails := faithful && debug && is_nil (flatten_tree tree) in
       match o with
-      | Failed cls => fails && String.eqb cls "RuntimeError"
+      | Failed cls => false
       | Ran t nodes =>
-          negb fails &&
           list_eqb obs_eqb t (map obs_of (fst r)) &&
           match nodes with
           | None => negb debug
